@@ -27,7 +27,7 @@ for f in sorted(glob.glob('seeded/*/meta.json'), key=key):
     if len(after)>330: after=after[:327]+'…'
     rows.append(f"| `{n}` | {m['breaks_property']} | {ch} | {'caught' if caught_first else '**missed**'} | {after} |")
 hdr="| Seeded change | Property | What it changes | First built check | After strengthening / how caught |\n|---|---|---|---|---|\n"
-summary="Caught by the check as it stood when the change arrived, per round: "+", ".join(f"round {r}: {first_caught.get(r,0)}/{total[r]}" for r in sorted(total))+f". Stored: {sum(total.values())}; all are caught now by the quick tier of the property's own check (`scripts/regress_seeded.sh`).\n\n"
+summary="Caught by the check as it stood when the change arrived, per round: "+", ".join(f"round {r}: {first_caught.get(r,0)}/{total[r]}" for r in sorted(total))+f". Stored: {sum(total.values())}; all are caught now by the check and tier recorded in their meta.json - the quick tier of the property's own check unless noted in the last column (`scripts/regress_seeded.sh`).\n\n"
 block="<!-- seeded-table:begin -->\n"+summary+hdr+"\n".join(rows)+"\n<!-- seeded-table:end -->"
 d=open('DESIGN.md').read()
 if '<!-- seeded-table:begin -->' in d:
